@@ -42,6 +42,8 @@ class Contract:
     locals: dict = field(default_factory=dict) # declared types for locals that cannot be inferred
     ghosts: dict = field(default_factory=dict) # ghost results: name -> T  (existential witnesses of the postcondition)
     ghost_witness: object = None               # f(o, e) -> {name: Sym}: the witnesses, chosen from the exit environment
+    ghost_state: dict = field(default_factory=dict)   # name -> (T, f(o) -> Sym): specification-only variables, read in invariants as e.get('$g.<name>')
+    ghost_updates: dict = field(default_factory=dict) # loop ordinal -> f(e) -> {name: Sym}: assignment executed at the end of every iteration of that loop
     entry_lemmas: object = None                # f(o) -> [(name, [local axioms], Bool)]: consequences of the precondition, each proved *in isolation*
                                                # (from the precondition and the listed axioms only), then available to every later obligation
 
@@ -267,6 +269,15 @@ class Engine:
         for x in els: term = Store(term, x.term, Select(term, x.term) + 1)
         return Sym(t, term)
 
+    def ev_Dict(self, e, st):
+        if not e.keys or any(k is None for k in e.keys): raise Unsupported(f'dict literal (line {e.lineno})')
+        ks = [self.ev(k, st) for k in e.keys]; vs = [self.ev(v, st) for v in e.values]
+        t = TMap(ks[0].t, vs[0].t)
+        if any(k.t != ks[0].t for k in ks) or any(v.t != vs[0].t for v in vs): raise Unsupported('dict literal with mixed types')
+        dom = TSet(ks[0].t).empty().term; val = t.ftype('val').fresh('dictlit').term
+        for k, v in zip(ks, vs): dom = Store(dom, k.term, True); val = Store(val, k.term, v.term)          # later keys win, as in Python
+        return t.make(dom=Sym(TSet(ks[0].t), dom), val=Sym(t.ftype('val'), val))
+
     def ev_Tuple(self, e, st):
         els = [self.ev(x, st) for x in e.elts]
         t = TTuple(*[x.t for x in els])
@@ -387,6 +398,9 @@ class Engine:
                     rt = TBag(a.t.elem); q = Const(fresh_name('lq'), a.t.elem.sort()); res = rt.fresh('list')
                     st.pc.append(ForAll([q], Select(res.term, q) == If(Select(a.term, q), 1, 0))); return res
                 if n == 'set' and isinstance(a.t, TSet): return a
+                if n == 'set' and isinstance(a.t, TBag):                       # set(list): membership only
+                    rt = TSet(a.t.elem); q = Const(fresh_name('sq'), a.t.elem.sort()); res = rt.fresh('set')
+                    st.pc.append(ForAll([q], Select(res.term, q) == (Select(a.term, q) > 0))); return res
                 raise Unsupported(f'{n}() of {a.t}')
             if n in self.w.ctors: return self.w.ctors[n](self, e, st)
             if ('fn.' + n) in self.w.contracts:
@@ -441,6 +455,9 @@ class Engine:
                 self.assign(f.value, Sym(t, Store(recv.term, args[0].term, False)), st); return NONE_SYM
             if a == 'discard':
                 self.assign(f.value, Sym(t, Store(recv.term, args[0].term, False)), st); return NONE_SYM
+        if isinstance(t, TSeq):
+            if a == 'append' and len(args) == 1 and args[0].t == t.elem:
+                self.assign(f.value, Sym(t, Concat(recv.term, Unit(args[0].term))), st); return NONE_SYM
         if isinstance(t, TBag):
             if a == 'append':
                 v = args[0].term
@@ -705,9 +722,15 @@ class Engine:
         if inv is None: raise Unsupported(f'loop {ordinal} (line {s.lineno}) has no invariant')
         INV = lambda state, done: unwrap(inv(NS(state.env), done))
         mod = self.modified_names(s.body); results = []
+        if self.cur.ghost_updates:                         # ghost variables assigned in this loop or in a loop nested in it are modified by it
+            for od, upd in self.cur.ghost_updates.items():
+                if od == ordinal or od.startswith(ordinal + '.'): mod |= {'$g.' + g for g in self.cur.ghost_state}
+        gupd = self.cur.ghost_updates.get(ordinal)
         def finish(body_outs, next_done_inv):
             for e_st, oc in body_outs:
                 if oc in ('normal', 'continue'):
+                    if gupd is not None:
+                        for g, v in gupd(NS(e_st.env)).items(): e_st.env['$g.' + g] = v
                     for n_ in mod:
                         a_, b_ = st.env.get(n_), e_st.env.get(n_)
                         if isinstance(a_, Sym) and isinstance(b_, Sym) and a_.t is not None and b_.t is not None and a_.t != b_.t:
@@ -770,6 +793,7 @@ class Engine:
             env['$yield'] = c.ret.empty()
         o = NS(old); self.entry = old
         if c.requires is not None: st.pc.append(unwrap(c.requires(o)))
+        for g, (gt, ginit) in c.ghost_state.items(): env['$g.' + g] = ginit(o)
         for (lname, from_axioms, formula) in getattr(self.w, 'derived', []):        # axioms that are consequences of other axioms: re-proved in isolation for every function that may use them
             ob = Obligation(key, f'derived axiom {lname}', list(from_axioms), unwrap(formula), fn.lineno); ob.isolated = True
             self.obls.append(ob)
